@@ -16,7 +16,7 @@ struct el_info;
 template<class R, int D, class N>
 struct el_info<_impl::wrapper<R, elastic_tag<D, N>>> {
     static constexpr int digits = D;
-    static constexpr bool is_signed = numeric_limits<N>::is_signed;
+    static constexpr bool is_signed = std::numeric_limits<N>::is_signed;
 };
 template<class R, class Tag>
 struct el_info<_impl::wrapper<R, Tag>> : el_info<R> {
